@@ -220,6 +220,28 @@ fn case(ctx: &Ctx, rng: &mut Rng, rep: &mut Report, params: &vcore::bundlegen::G
         };
         b.spends[i].conds.push(Sx::pair(Sx::atom(&[op]), Sx::list(&[Sx::atom(&pk), Sx::atom(&msg)])));
     }
+    // repeated pairs: the aggregate must cover the MULTISET of (key, message) pairs, so the same
+    // condition twice in one spend (identical final message) or the same AGG_SIG_UNSAFE in two spends
+    // must be signed twice
+    if rng.chance(1, 3) {
+        let mut sites = vec![];
+        for (i, s) in b.spends.iter().enumerate() {
+            for (j, c) in s.conds.iter().enumerate() {
+                if let Some(o) = c.first().and_then(Sx::as_atom) {
+                    if o.len() == 1 && (43..=50).contains(&o[0]) {
+                        sites.push((i, j, o[0]));
+                    }
+                }
+            }
+        }
+        if !sites.is_empty() {
+            let (i, j, op) = sites[rng.usize(sites.len())];
+            let c = b.spends[i].conds[j].clone();
+            let target = if op == 49 && rng.bool() { rng.usize(b.spends.len()) } else { i };
+            b.spends[target].conds.push(c);
+            rep.count("repeated-pair-bundles");
+        }
+    }
     let mut flags = ConsensusFlags::empty();
     if rng.chance(1, 3) {
         flags |= MEMPOOL_MODE;
